@@ -158,6 +158,13 @@ impl<'a> UserModel<'a> {
                                     .workbook
                                     .worksheet_mut(*sheet)?
                                     .update_cell(r, c, value)?;
+                            } else {
+                                // There was no cell before: remove the empty cell the
+                                // clear left behind (it carries an explicit style)
+                                self.model
+                                    .workbook
+                                    .worksheet_mut(*sheet)?
+                                    .remove_cell(r, c)?;
                             }
                         }
                     }
